@@ -8,7 +8,9 @@ open SshAudit SshAudit.Footprint
 def decProbeOutcome (tok : String) : Option (ProbeOutcome × Bool) :=
   match tok with
   | "c" => some (.connectFail, false) | "b" => some (.bannerFail, false) | "k" => some (.kexFail, false) | "g" => some (.groupFail, false)
-  | "x" => some (.exchanged, false) | "X" => some (.exchanged, true) | _ => none
+  | "x" => some (.exchanged, false) | "X" => some (.exchanged, true)
+  -- the *_INIT message went out and nothing came back (close / stall): no exception, the (empty) key is recorded; a group already received counts
+  | "n" => some (.exchanged, true) | "s" => some (.exchanged, true) | _ => none
 
 def phaseName : Phase → String | .handshake => "handshake" | .hostKey => "hostkey" | .gex => "gex" | .rate => "rate"
 def jconn (c : Conn) : J := .arr [.str (phaseName c.phase).toList, .bool c.connected, .arr (c.sent.map .nat), .bool c.closed]
